@@ -13,7 +13,7 @@ def run(ctx):
     def per_case(case, res):
         if res["status"] == "ok":
             orc.oracle_c15(ctx, case, res, fp.failer(ctx, case))
-    n = 250 if ctx.tier == "quick" else 4000
+    n = 600 if ctx.tier == "quick" else 4000
     fp.explore(ctx, drv, n // 2, per_case, gen=fp.gen_tied_case, graph_corr=True, pipe_corr=True)
     fp.explore(ctx, drv, n // 2, per_case, gen=lambda rng, i: fp.gen_case(rng, i, share_every=1), graph_corr=False, pipe_corr=True)
     drv.close()
